@@ -365,6 +365,147 @@ def _veldiv_body(case, ctx):
     ctx.note(nontrivial=bool(np.any(w)) and len(set(shape)) > 1, labels=simcfg.config_labels(cfg))
 
 
+# ------------------------------------------------------------------------------------------------
+# the identities on the COMPILED public kernels, integer-valued data (exact in floating point), arbitrary memory layouts
+# ------------------------------------------------------------------------------------------------
+
+LAYOUTS12 = ["contig", "contig", "strided_last", "component_last", "subblock", "fortran"]
+_CK = {}
+
+
+def _lay(a, layout, nsp):
+    """same values, different memory layout (all admissible numpy views)."""
+    lead = a.ndim - nsp
+    if layout == "contig":
+        return np.ascontiguousarray(a).copy()
+    if layout == "strided_last":
+        base = np.full(a.shape[:-1] + (2 * a.shape[-1],), 77.0, dtype=a.dtype)
+        base[..., ::2] = a
+        return base[..., ::2]
+    if layout == "component_last" and lead == 1:
+        base = np.ascontiguousarray(np.moveaxis(a, 0, -1)).copy()
+        return np.moveaxis(base, -1, 0)
+    if layout == "subblock":
+        pad = [(0, 0)] * lead + [(1, 2)] * nsp
+        base = np.pad(a, pad, constant_values=77.0)
+        return base[(slice(None),) * lead + tuple(slice(1, 1 + n) for n in a.shape[lead:])]
+    if layout == "fortran":
+        return np.asfortranarray(a)
+    return np.ascontiguousarray(a).copy()
+
+
+def _ck(name, real_t, threads, **opts):
+    import sopht.numeric.eulerian_grid_ops as spne
+
+    key = (name, np.dtype(real_t).name, threads, tuple(sorted(opts.items())))
+    if key not in _CK:
+        _CK[key] = getattr(spne, name)(real_t=real_t, num_threads=threads, **opts)
+    return _CK[key]
+
+
+def _cid_variants(tier):
+    return ["div_curl_3d", "forcing_update_3d", "penalised_update_3d", "curl_curl_2d", "forcing_update_2d", "penalised_update_2d"]
+
+
+def _cid_strategy(tier, ident):
+    dim = 2 if ident.endswith("2d") else 3
+
+    @st.composite
+    def case(draw):
+        return {"ident": ident, "shape": draw(gen.grid_shape(dim, 5, 14 if dim == 2 else 9)), "dtype": draw(gen.precisions),
+                "threads": draw(st.sampled_from([False, 1, 2])), "keys": draw(st.lists(gen.block_keys, min_size=3, max_size=3)),
+                "layouts": draw(st.lists(st.sampled_from(LAYOUTS12), min_size=4, max_size=4)),
+                "pre_exp": draw(st.integers(-3, 2)), "reset": draw(st.booleans())}
+
+    return case()
+
+
+def _ints(key, shape, real_t, lo=-8, hi=8):
+    rng = np.random.Generator(np.random.Philox(key=int(key)))
+    return rng.integers(lo, hi + 1, size=shape).astype(real_t)
+
+
+def _cid_body(case, ctx):
+    ident = case["ident"]
+    shape = tuple(case["shape"])
+    dim = len(shape)
+    real_t = gen.np_dtype(case["dtype"])
+    thr = case["threads"]
+    L = case["layouts"]
+    pre = real_t(2.0 ** case["pre_exp"])  # power of two: every product and sum below is exact in float32/float64
+    inner2 = (slice(2, -2),) * dim
+    inner1 = (slice(1, -1),) * dim
+
+    def bad(msg, got, want, sl):
+        d = np.abs(got[sl].astype(np.float64) - want[sl].astype(np.float64))
+        i = np.unravel_index(int(np.argmax(d)), d.shape)
+        raise Violation(f"{ident} (compiled kernels, layouts {L}, shape {list(shape)}, {case['dtype']}, threads {thr}): {msg}: "
+                        f"got {got[sl][i]!r}, identity demands {want[sl][i]!r} at interior index {tuple(int(q) for q in i)}")
+
+    with ctx.repo_call(f"compiled identity {ident}"):
+        if ident == "div_curl_3d":
+            F = _lay(_ints(case["keys"][0], (3, *shape), real_t), L[0], 3)
+            C = _lay(np.zeros((3, *shape), dtype=real_t), L[1], 3)
+            D = _lay(np.full(shape, 5.0, dtype=real_t), L[2], 3)
+            _ck("gen_curl_pyst_kernel_3d", real_t, thr, reset_ghost_zone=case["reset"])(curl=C, field=F, prefactor=pre)
+            _ck("gen_divergence_pyst_kernel_3d", real_t, thr, reset_ghost_zone=case["reset"])(divergence=D, field=C, inv_dx=real_t(2.0))
+            if np.any(D[inner2] != 0):
+                bad("discrete divergence of the library curl is not zero", D, np.zeros(shape), inner2)
+        elif ident in ("forcing_update_3d", "forcing_update_2d"):
+            nc = 3 if dim == 3 else 2
+            F = _lay(_ints(case["keys"][0], (nc, *shape), real_t), L[0], dim)
+            w0 = _ints(case["keys"][1], (3, *shape) if dim == 3 else shape, real_t)
+            W = _lay(w0.copy(), L[1], dim)
+            if dim == 3:
+                C = _lay(np.zeros((3, *shape), dtype=real_t), L[2], 3)
+                _ck("gen_curl_pyst_kernel_3d", real_t, thr, reset_ghost_zone=False)(curl=C, field=F, prefactor=real_t(1.0))
+                _ck("gen_update_vorticity_from_velocity_forcing_pyst_kernel_3d", real_t, thr)(
+                    vorticity_field=W, velocity_forcing_field=F, prefactor=pre)
+                want = w0.astype(np.float64) + float(pre) * C.astype(np.float64)
+                if np.any(W[(slice(None),) + inner1].astype(np.float64) != want[(slice(None),) + inner1]):
+                    bad("forcing update != vorticity + prefactor * library curl", W, want, (slice(None),) + inner1)
+            else:
+                C = _lay(np.zeros(shape, dtype=real_t), L[2], 2)
+                _ck("gen_inplane_field_curl_pyst_kernel_2d", real_t, thr)(curl=C, field=F, prefactor=real_t(1.0))
+                _ck("gen_update_vorticity_from_velocity_forcing_pyst_kernel_2d", real_t, thr)(
+                    vorticity_field=W, velocity_forcing_field=F, prefactor=pre)
+                want = w0.astype(np.float64) + float(pre) * C.astype(np.float64)
+                if np.any(W[inner1].astype(np.float64) != want[inner1]):
+                    bad("forcing update != vorticity + prefactor * library in-plane curl", W, want, inner1)
+        elif ident in ("penalised_update_3d", "penalised_update_2d"):
+            nc = 3 if dim == 3 else 2
+            U = _lay(_ints(case["keys"][0], (nc, *shape), real_t), L[0], dim)
+            G = _lay(_ints(case["keys"][1], (nc, *shape), real_t), L[1], dim)
+            w0 = _ints(case["keys"][2], (3, *shape) if dim == 3 else shape, real_t)
+            W1 = _lay(w0.copy(), L[2], dim)
+            W2 = _lay(w0.copy(), L[3], dim)
+            Dd = _lay((G.astype(np.float64) - U.astype(np.float64)).astype(real_t), L[3], dim)
+            _ck(f"gen_update_vorticity_from_penalised_velocity_pyst_kernel_{dim}d", real_t, thr)(
+                vorticity_field=W1, penalised_velocity_field=G, velocity_field=U, prefactor=pre)
+            _ck(f"gen_update_vorticity_from_velocity_forcing_pyst_kernel_{dim}d", real_t, thr)(
+                vorticity_field=W2, velocity_forcing_field=Dd, prefactor=pre)
+            if np.any(W1.astype(np.float64) != W2.astype(np.float64)):
+                bad("penalised-velocity update != forcing update applied to the velocity difference", np.asarray(W1), np.asarray(W2),
+                    (slice(None),) * (W1.ndim))
+        else:  # curl_curl_2d
+            psi = _ints(case["keys"][0], shape, real_t)
+            P = _lay(psi.copy(), L[0], 2)
+            V = _lay(np.zeros((2, *shape), dtype=real_t), L[1], 2)
+            C = _lay(np.zeros(shape, dtype=real_t), L[2], 2)
+            _ck("gen_outplane_field_curl_pyst_kernel_2d", real_t, thr, reset_ghost_zone=case["reset"])(curl=V, field=P, prefactor=pre)
+            _ck("gen_inplane_field_curl_pyst_kernel_2d", real_t, thr)(curl=C, field=V, prefactor=real_t(1.0))
+            p = psi.astype(np.float64)
+            want = np.zeros(shape)
+            want[2:-2, 2:-2] = -float(pre) * (p[2:-2, 4:] + p[2:-2, :-4] + p[4:, 2:-2] + p[:-4, 2:-2] - 4 * p[2:-2, 2:-2])
+            if np.any(C[inner2].astype(np.float64) != want[inner2]):
+                bad("in-plane curl of the out-of-plane curl != -p1 p2 (wide five-point Laplacian)", C, want, inner2)
+            div = (V[0][2:-2, 3:-1].astype(np.float64) - V[0][2:-2, 1:-3]) + (V[1][3:-1, 2:-2].astype(np.float64) - V[1][1:-3, 2:-2])
+            if np.any(div != 0):
+                raise Violation(f"{ident}: velocity = curl(psi) from the compiled kernel is not discretely divergence-free (layouts {L})")
+    ctx.note(nontrivial=any(q != "contig" for q in L) or len(set(shape)) > 1,
+             labels=[ident, case["dtype"]] + sorted({"layout_" + q for q in L}))
+
+
 PARTS = [
     Part(name="exact_identities", strategy=_strategy, body=_body_exact,
          examples={"quick": 1600, "thorough": 40000}, shards={"quick": 8, "thorough": 16}, variants=_ident_variants),
@@ -372,4 +513,6 @@ PARTS = [
          examples={"quick": 60, "thorough": 1500}, shards={"quick": 4, "thorough": 16}),
     Part(name="compiled_velocity_divergence", strategy=_veldiv_strategy, body=_veldiv_body, variants=_veldiv_variants,
          examples={"quick": 80, "thorough": 2000}, shards={"quick": 2, "thorough": 2}),
+    Part(name="compiled_identities_any_layout", strategy=_cid_strategy, body=_cid_body, variants=_cid_variants,
+         examples={"quick": 360, "thorough": 9000}, shards={"quick": 6, "thorough": 12}),
 ]
